@@ -29,6 +29,18 @@ class Ref:
         return f'Ref({self.ref})'
 
 
+class MsgRef(Ref):
+    """An exception instance known by its class and the text of its message (unknown parts of the text read '?')."""
+    __slots__ = ('message',)
+
+    def __init__(self, ref, message):
+        Ref.__init__(self, ref)
+        self.message = message
+
+    def __repr__(self):
+        return f'Ref({self.ref}: {self.message[:60]!r})'
+
+
 class Obj:
     """Instance of a package class built by a constructor call with folded arguments."""
 
